@@ -69,6 +69,9 @@ func runC18(c *Ctx) {
 		if len(idx) == maxLines && maxLines >= 3 {
 			cfg.Depth = 1
 		}
+		if c.Thorough() && len(idx) < maxLines && fi%6 != 0 {
+			cfg.Depth = 2 // thorough: sequences of three calls on every sixth file (each history works on real temp files)
+		}
 		if !c.Thorough() && fi%4 != 0 {
 			cfg.Depth = 1 // quick: sequences of two calls on every fourth file only
 		}
